@@ -6,6 +6,7 @@ tensors, job structure) satisfying `WF` and over every reachable state, i.e. eve
 Helper developments: Lemmas/Writer*.lean.
 -/
 import IrVerif.Lemmas.WriterFiles
+import IrVerif.Lemmas.WriterNLog
 namespace IrVerif.Writer
 
 theorem reachable_inv {cfg : Cfg} (wf : WF cfg) {s : State} (h : Reachable cfg s) :
@@ -261,3 +262,300 @@ example : (run (exCfg true) (init (exCfg true))
      .main 0]).map (fun s => s.main) = some (.finished true) := by decide
 
 end IrVerif.Writer
+
+/-! ## The general (nested) model `IrVerif.WriterN`
+
+A tree of worker pools: the flat modes above are its instances with one pool; in addition every
+shard driver may run a *parallel* writer (`workers_per_shard >= 2`), i.e. own an inner pool, all
+pools sharing the one budget, the tensor-object locks and the outer callback lock.  The theorems
+quantify over every well-formed pool tree (any depth), every sizes / capacity / failing tensors, and
+every schedule. -/
+namespace IrVerif.WriterN
+
+theorem reachable_GInv {cfg : Cfg} (wf : WF cfg) {s : State} (h : Reachable cfg s) : GInv s := by
+  induction h with
+  | init => exact GInv_init cfg
+  | step l hr hst ih => exact GInv_step wf (reachable_Inv wf hr).s ih (stepRel_of_step hst)
+
+theorem reachable_of_run {cfg : Cfg} : ∀ (ls : List Label) {s s' : State}, Reachable cfg s →
+    run cfg s ls = some s' → Reachable cfg s'
+  | [], s, s', hr, h => by simp [run] at h; subst h; exact hr
+  | l :: ls, s, s', hr, h => by
+      simp only [run] at h
+      split at h
+      · simp at h
+      · rename_i s1 hs1; exact reachable_of_run ls (.step l hr hs1) h
+
+def maxSize (cfg : Cfg) : Nat := cfg.tensors.foldr (fun t m => max t.size m) 0
+
+theorem size_le_maxSize (cfg : Cfg) (i : Nat) : cfg.size i ≤ maxSize cfg := by
+  unfold Cfg.size maxSize
+  generalize cfg.tensors = l
+  induction l generalizing i with
+  | nil => simp; rfl
+  | cons t ts ih =>
+      cases i with
+      | zero => simp; omega
+      | succ i => have := ih i; simp at this ⊢; omega
+
+def materialised (cfg : Cfg) (s : State) : Nat :=
+  wsum (fun i p => if holds p = true then cfg.size i else 0) 0 s.tasks
+
+theorem wsum_mul_le (f : Nat → Pc → Nat) (g : Nat → Pc → Nat) (c : Nat)
+    (h : ∀ i p, g i p ≤ f i p * c) : ∀ (l : List Pc) (k : Nat), wsum g k l ≤ wsum f k l * c
+  | [], _ => by simp [wsum]
+  | q :: qs, k => by
+      have := wsum_mul_le f g c h qs (k + 1)
+      have := h k q
+      simp only [wsum, Nat.add_mul]; omega
+
+/-- **C09_budget** (nested): as `IrVerif.Writer.C09_budget`, for all pools together — the one
+    shared budget bounds the bytes materialised by the threads of *all* shards. -/
+theorem C09_budget {cfg : Cfg} (wf : WF cfg) {s : State} (h : Reachable cfg s) :
+    s.inFlight = wsum (fReg cfg) 0 s.tasks ∧ s.inFlight ≤ cfg.capacity ∧
+    wsum (fOver cfg) 0 s.tasks ≤ 1 ∧ (s.oversized = true ↔ wsum (fOver cfg) 0 s.tasks = 1) ∧
+    materialised cfg s ≤ cfg.capacity + maxSize cfg := by
+  have hl := (reachable_Inv wf h).l
+  have hov := hl.over
+  have h1 : wsum (fOver cfg) 0 s.tasks ≤ 1 := by rw [← hov]; split <;> omega
+  refine ⟨hl.reg, hl.le, h1, ?_, ?_⟩
+  · cases ho : s.oversized <;> simp [ho] at hov ⊢ <;> omega
+  · have hsplit : materialised cfg s ≤
+        wsum (fReg cfg) 0 s.tasks + wsum (fOver cfg) 0 s.tasks * maxSize cfg := by
+      unfold materialised
+      have h2 := wsum_mul_le (fOver cfg)
+        (fun i p => if holds p = true ∧ cfg.size i > cfg.capacity then cfg.size i else 0)
+        (maxSize cfg) (by
+          intro i p; have := size_le_maxSize cfg i
+          simp only [fOver]; split <;> simp <;> omega) s.tasks 0
+      have h3 := wsum_add (fReg cfg)
+        (fun i p => if holds p = true ∧ cfg.size i > cfg.capacity then cfg.size i else 0) s.tasks 0
+      have h4 := wsum_le_of_le (fun i p => if holds p = true then cfg.size i else 0)
+        (fun i p => fReg cfg i p +
+          (if holds p = true ∧ cfg.size i > cfg.capacity then cfg.size i else 0))
+        (by intro i p; simp only [fReg]; split <;> split <;> split <;> simp_all <;> omega) s.tasks 0
+      omega
+    have := hl.reg
+    have := hl.le
+    have : wsum (fOver cfg) 0 s.tasks * maxSize cfg ≤ maxSize cfg := by
+      rcases Nat.le_one_iff_eq_zero_or_eq_one.1 h1 with e | e <;> simp [e]
+    omega
+
+/-- **C09_callback_mutex** (nested): two threads — of the same or of different pools — are never
+    inside the progress callback together. -/
+theorem C09_callback_mutex {cfg : Cfg} (wf : WF cfg) {s : State} (h : Reachable cfg s)
+    {i j : Nat} (hij : i ≠ j) (hi : s.tasks[i]? = some .cbBody) (hj : s.tasks[j]? = some .cbBody) :
+    False := by
+  have hcb := (reachable_Inv wf h).l.cb
+  have h2 : fCb i .cbBody + fCb j .cbBody ≤ wsum fCb 0 s.tasks := by
+    rcases Nat.lt_or_gt_of_ne hij with hlt | hlt
+    · simpa using wsum_ge2 fCb s.tasks 0 i j _ _ hlt hi hj
+    · have := wsum_ge2 fCb s.tasks 0 j i _ _ hlt hj hi
+      simp at this ⊢; omega
+  simp [fCb] at h2
+  split at hcb <;> omega
+
+/-- **C09_tensor_mutex** (nested): two uses of the same tensor object — also from different shards
+    — are never inside the tensor-lock section together. -/
+theorem C09_tensor_mutex {cfg : Cfg} (wf : WF cfg) {s : State} (h : Reachable cfg s)
+    {i j : Nat} {p q : Pc} (hij : i ≠ j) (hobj : cfg.obj i = cfg.obj j)
+    (hi : s.tasks[i]? = some p) (hj : s.tasks[j]? = some q) (hp : inT p = true) (hq : inT q = true) :
+    False := by
+  have hI := reachable_Inv wf h
+  have hil : i < cfg.n := by rw [← hI.s.tasks_len]; exact getElem?_lt hi
+  have htl := hI.l.tl (cfg.obj i) (wf.obj_lt i hil)
+  have h2 : fT cfg (cfg.obj i) i p + fT cfg (cfg.obj i) j q ≤ wsum (fT cfg (cfg.obj i)) 0 s.tasks := by
+    rcases Nat.lt_or_gt_of_ne hij with hlt | hlt
+    · simpa using wsum_ge2 (fT cfg (cfg.obj i)) s.tasks 0 i j _ _ hlt hi hj
+    · have := wsum_ge2 (fT cfg (cfg.obj i)) s.tasks 0 j i _ _ hlt hj hi
+      simp at this ⊢; omega
+  simp [fT, hp, hq, hobj.symm] at h2
+  split at htl <;> omega
+
+/-- **C09_callback_once_partial** (nested): in every reachable state the callback log has no
+    duplicates and contains exactly the tensors whose callback step has been executed.
+    *Missing* for the general pool tree (proved for the flat modes in
+    `IrVerif.Writer.C09_callback_once`): "after a successful save the log contains every tensor". -/
+theorem C09_callback_once_partial {cfg : Cfg} (wf : WF cfg) {s : State} (h : Reachable cfg s) :
+    s.log.Nodup ∧ ∀ k, k ∈ s.log ↔ called s k :=
+  ⟨(reachable_GInv wf h).nodup, (reachable_GInv wf h).mem⟩
+
+/-- **C09_deadlock_free** (nested): every reachable state in which the save has not returned has an
+    enabled step. -/
+theorem C09_deadlock_free {cfg : Cfg} (wf : WF cfg) {s : State} (h : Reachable cfg s)
+    (hnt : terminal s = false) : ∃ l, (step cfg s l).isSome = true :=
+  progress wf (reachable_Inv wf h) hnt
+
+/-- **C09_terminates** (nested): the variant strictly decreases on every step. -/
+theorem C09_terminates {cfg : Cfg} (wf : WF cfg) {s s' : State} {l : Label} (h : Reachable cfg s)
+    (hst : step cfg s l = some s') : variant cfg s' < variant cfg s :=
+  variant_decreases wf (reachable_Inv wf h) (stepRel_of_step hst)
+
+theorem C09_schedule_bounded {cfg : Cfg} (wf : WF cfg) : ∀ (ls : List Label) {s s' : State},
+    Reachable cfg s → run cfg s ls = some s' → ls.length + variant cfg s' ≤ variant cfg s
+  | [], s, s', _, h => by simp [run] at h; subst h; simp
+  | l :: ls, s, s', hr, h => by
+      simp only [run] at h
+      split at h
+      · simp at h
+      · rename_i s1 hs1
+        have h1 := C09_terminates wf hr hs1
+        have h2 := C09_schedule_bounded wf ls (.step l hr hs1) h
+        simp only [List.length_cons]; omega
+
+theorem C09_maximal_terminal {cfg : Cfg} (wf : WF cfg) {ls : List Label} {s : State}
+    (h : run cfg (init cfg) ls = some s) (hmax : ∀ l, step cfg s l = none) : terminal s = true := by
+  cases ht : terminal s
+  · obtain ⟨l, hl⟩ := C09_deadlock_free wf (reachable_of_run ls .init h) ht
+    rw [hmax l] at hl; simp at hl
+  · rfl
+
+/-- **C09_error_quiescent** (nested): when the save returns to the caller / the exception reaches the
+    caller, no pool owner is inside an executor, every pool that was created has all its threads
+    exited, no tensor is in progress, the whole budget is released and the callback lock, every
+    inner callback lock and all tensor locks are free. -/
+theorem C09_error_quiescent {cfg : Cfg} (wf : WF cfg) {s : State} (h : Reachable cfg s) {e : Bool}
+    (hm : (s.pl 0).owner = .closed e) :
+    (∀ q, ownAct (s.pl q).owner = false) ∧
+    (∀ q, (s.pl q).owner ≠ .notCreated → (s.pl q).exited = (cfg.pool q).size ∧ (s.pl q).idle = 0) ∧
+    (∀ (i : Nat) (p : Pc), s.tasks[i]? = some p → act p = false) ∧
+    s.inFlight = 0 ∧ s.oversized = false ∧ s.cbLock = false ∧
+    (∀ o, o < cfg.nObjs → s.tLocks.getD o false = false) ∧
+    (∀ q, q < cfg.nPools → s.cbIn.getD q false = false) := by
+  have hI := reachable_Inv wf h
+  have hcl : ∀ q, ownAct (s.pl q).owner = false := fun q => closed_all wf hI hm q q (Nat.le_refl _)
+  have hclosed : ∀ q, (s.pl q).owner ≠ .notCreated → ∃ e', (s.pl q).owner = .closed e' := by
+    intro q hnc
+    have := hcl q
+    cases ho : (s.pl q).owner with
+    | notCreated => exact absurd ho hnc
+    | closed e' => exact ⟨e', rfl⟩
+    | submit k => rw [ho] at this; simp [ownAct] at this
+    | collect => rw [ho] at this; simp [ownAct] at this
+    | join e' => rw [ho] at this; simp [ownAct] at this
+  have hpoolq : ∀ q, (s.pl q).owner ≠ .notCreated →
+      (s.pl q).exited = (cfg.pool q).size ∧ (s.pl q).idle = 0 ∧ wsum (fActQ cfg q) 0 s.tasks = 0 := by
+    intro q hnc
+    obtain ⟨e', he'⟩ := hclosed q hnc
+    have hex := hI.p.fin_exit q e' he'
+    have hpool := hI.p.pool q hnc
+    exact ⟨hex, by omega, by omega⟩
+  have hna : ∀ (i : Nat) (p : Pc), s.tasks[i]? = some p → act p = false := by
+    intro i p hi
+    cases hp : act p
+    · rfl
+    · exfalso
+      have hcr := hI.s.act_created wf hi hp
+      have hz := (hpoolq _ hcr).2.2
+      have := wsum_ge0 (fActQ cfg (cfg.poolOf i)) s.tasks i p hi
+      simp [fActQ, hp] at this
+      omega
+  obtain ⟨h1, h2, h3, h4, h5⟩ := quiet_of_no_act hI.l hna
+  exact ⟨hcl, fun q hnc => ⟨(hpoolq q hnc).1, (hpoolq q hnc).2.1⟩, hna, h1, h2, h3, h4, h5⟩
+
+
+theorem pool_default {cfg : Cfg} {q : Nat} (h : cfg.nPools ≤ q) : cfg.pool q = default := by
+  simp [Cfg.pool, Cfg.nPools] at *
+  simp [List.getElem?_eq_none h]
+
+/-- the executable well-formedness test used by the driver implies `WF` -/
+theorem wfb_sound {cfg : Cfg} (h : wfb cfg = true) : WF cfg := by
+  simp only [wfb, Bool.and_eq_true, decide_eq_true_eq, List.all_eq_true, List.mem_range] at h
+  obtain ⟨⟨⟨⟨⟨⟨h1, h2⟩, h3⟩, h4⟩, h5⟩, h6⟩, h7⟩ := h
+  have inr : ∀ q j, j ∈ (cfg.pool q).jobs → q < cfg.nPools := by
+    intro q j hj
+    rcases Nat.lt_or_ge q cfg.nPools with hq | hq
+    · exact hq
+    · rw [pool_default hq, show (default : PoolCfg).jobs = [] from rfl] at hj; simp at hj
+  refine ⟨h1, h2, ?_, fun q hq => (h3 q hq).1.1.2, fun q hq => (h3 q hq).1.2, ?_, ?_, ?_, ?_, ?_, ?_,
+    fun i hi => (h6 i hi).1.1, fun i hi => (h6 i hi).1.2, fun i hi => (h6 i hi).2,
+    fun i k hik hk e => h7 k hk i hik e, ?_, ?_⟩
+  · intro q hq h0
+    have := (h3 q hq).1.1.1 h0
+    cases hp : (cfg.pool q).parent with
+    | none => rw [hp] at this; simp at this
+    | some jp => exact ⟨jp, rfl⟩
+  · intro q
+    rcases Nat.lt_or_ge q cfg.nPools with hq | hq
+    · exact (h4 q hq).1
+    · rw [pool_default hq, show (default : PoolCfg).jobs = [] from rfl]; simp
+  · intro q j hj
+    have hq := inr q j hj
+    have := (h4 q hq).2 j hj
+    exact ⟨this.1, this.2, hq⟩
+  · intro j hj
+    have := (h5 j hj).1.2
+    simpa using this
+  · intro j hj hsub
+    have := (h5 j hj).2
+    rw [hsub] at this
+    simp only [Bool.and_eq_true, decide_eq_true_eq, List.all_eq_true, List.mem_range] at this
+    exact this.1.1
+  · intro j hj hsub
+    have := (h5 j hj).2
+    rw [hsub] at this
+    simp only [Bool.and_eq_true, decide_eq_true_eq, List.all_eq_true, List.mem_range] at this
+    exact this.1.2
+  · intro j i hj hsub hi
+    have := (h5 j hj).2
+    rw [hsub] at this
+    simp only [Bool.and_eq_true, decide_eq_true_eq, List.all_eq_true, List.mem_range] at this
+    exact this.2 i hi
+  · intro j q' hj hsub
+    have := (h5 j hj).2
+    rw [hsub] at this
+    simp only [Bool.and_eq_true, decide_eq_true_eq] at this
+    exact ⟨this.1.1, this.1.2, this.2⟩
+  · intro q jp hq hpar
+    have := (h3 q hq).2
+    rw [hpar] at this
+    simp only [Bool.and_eq_true, decide_eq_true_eq] at this
+    exact this
+
+/-! ### non-vacuity (nested) -/
+
+/-- 2 shards x 2 inner workers, 4 tensors, capacity 4, tensor 1 oversized, object 0 shared by
+    tensors 0 and 2, tensor 3 fails when `fail3` -/
+def exNested (fail3 : Bool) : Cfg where
+  capacity := 4
+  nObjs := 3
+  tensors := [⟨0, 2, false, false, 2, 0, 0, [1, 1]⟩, ⟨1, 5, false, false, 3, 0, 2, [2, 2, 2, 2, 2]⟩,
+              ⟨0, 2, false, false, 4, 1, 0, [1, 1]⟩, ⟨2, 2, fail3, false, 5, 1, 2, [3, 3]⟩]
+  pools := [⟨2, false, [0, 1], false, none⟩, ⟨2, true, [2, 3], true, some 0⟩, ⟨2, true, [4, 5], true, some 1⟩]
+  jobs := [⟨0, 0, some 1⟩, ⟨0, 2, some 2⟩, ⟨1, 0, none⟩, ⟨1, 1, none⟩, ⟨2, 2, none⟩, ⟨2, 3, none⟩]
+  files := [[0, 0, 0, 0, 0, 0, 0], [0, 0, 0, 0]]
+
+example : WF (exNested true) := wfb_sound (by decide)
+example : WF (exNested false) := wfb_sound (by decide)
+
+
+/-- a complete successful nested schedule: both shard drivers run an inner pool -/
+example : (run (exNested false) (init (exNested false))
+    [.owner 0 0, .owner 0 0, .take 0, .owner 1 0, .owner 1 0, .take 0, .owner 2 0, .owner 2 0, .take 1,
+     .take 1, .take 2, .take 2, .task 0, .task 0, .task 0, .task 0, .task 0, .task 0, .task 0,
+     .owner 1 2, .task 1, .task 1, .task 1, .task 1, .task 1, .task 1, .task 1, .owner 1 3, .exit 1,
+     .exit 1, .owner 1 0, .owner 0 0, .task 2, .task 2, .task 2, .task 2, .task 2, .task 2, .task 2,
+     .owner 2 4, .task 3, .task 3, .task 3, .task 3, .task 3, .task 3, .task 3, .owner 2 5, .exit 2,
+     .exit 2, .owner 2 0, .owner 0 0, .exit 0, .exit 0, .owner 0 0]).map
+      (fun s => ((s.pl 0).owner, s.log, s.files)) =
+    some (.closed false, [0, 1, 2, 3], [[1, 1, 2, 2, 2, 2, 2], [1, 1, 3, 3]]) := by decide
+
+/-- a nested state in which a thread of one shard waits for budget held by a thread of the other
+    shard (capacity 3: 2 + 2 does not fit) -/
+example : (run { exNested false with capacity := 3 } (init { exNested false with capacity := 3 })
+    [.owner 0 0, .owner 0 0, .take 0, .owner 1 0, .owner 1 0, .take 0, .owner 2 0, .owner 2 0, .take 1,
+     .take 1, .take 2, .take 2, .task 3, .task 3, .task 3, .task 3, .task 3, .task 0, .task 0, .task 0,
+     .task 0, .task 0]).map (fun s => (s.tasks, s.inFlight)) =
+    some ([.waiting, .cbAcqIn, .cbAcqIn, .write], 2) := by decide
+
+/-- the failing tensor's exception reaches the caller through the inner and the outer pool -/
+example : (run (exNested true) (init (exNested true))
+    [.owner 0 0, .owner 0 0, .take 0, .owner 1 0, .owner 1 0, .take 0, .owner 2 0, .owner 2 0, .take 1,
+     .take 1, .take 2, .take 2, .task 0, .task 0, .task 0, .task 0, .task 0, .task 0, .task 0,
+     .owner 1 2, .task 1, .task 1, .task 1, .task 1, .task 1, .task 1, .task 1, .owner 1 3, .exit 1,
+     .exit 1, .owner 1 0, .owner 0 0, .task 2, .task 2, .task 2, .task 2, .task 2, .task 2, .task 2,
+     .owner 2 4, .task 3, .task 3, .task 3, .task 3, .task 3, .task 3, .task 3, .owner 2 5, .exit 2,
+     .exit 2, .owner 2 0, .owner 0 0, .exit 0, .exit 0, .owner 0 0]).map
+      (fun s => (s.pl 0).owner) = some (.closed true) := by decide
+
+end IrVerif.WriterN
